@@ -504,6 +504,9 @@ mod imp {
         pub snap: [u64; 9], // ip bl word base clen ctrue uplen regslen cachelen
         pub acc: Vec<(u32, u64, u64)>,
         pub complete: bool,
+        /// hook b309b16 (optional): the running frame's record matches its function object / its upvalue vector has a live owner
+        pub frame_ok: bool,
+        pub upowner_ok: bool,
     }
 
     pub fn split(log: &[(u32, u64, u64)]) -> Vec<Instr> {
@@ -512,7 +515,7 @@ mod imp {
         while i < log.len() {
             let (id, a, _b) = log[i];
             if id == verif_sites::SNAP_GRID {
-                let mut ins = Instr { ongrid: a, snap: [0; 9], acc: Vec::new(), complete: false };
+                let mut ins = Instr { ongrid: a, snap: [0; 9], acc: Vec::new(), complete: false, frame_ok: true, upowner_ok: true };
                 i += 1;
                 // FETCH
                 if i < log.len() && log[i].0 == verif_sites::FETCH {
@@ -533,7 +536,12 @@ mod imp {
                     i += 4;
                 }
                 while i < log.len() && log[i].0 != verif_sites::SNAP_GRID {
-                    ins.acc.push(log[i]);
+                    match log[i].0 {
+                        105 => ins.frame_ok = log[i].1 == 1,
+                        106 => ins.upowner_ok = log[i].1 == 1,
+                        id if id >= 100 => {}
+                        _ => ins.acc.push(log[i]),
+                    }
                     i += 1;
                 }
                 out.push(ins);
@@ -615,12 +623,19 @@ mod imp {
         });
         let mut tainted = false;
         let (mut offgrid, mut stale, mut unresolved) = (0u64, 0u64, 0u64);
+        let (mut badframe, mut badup) = (0u64, 0u64);
         let n = ins.len();
         let mut oobs = Vec::new();
         for (k, it) in ins.iter().enumerate() {
             if it.ongrid == 0 {
                 tainted = true;
                 offgrid += 1;
+            }
+            if !it.frame_ok {
+                badframe += 1;
+            }
+            if !it.upowner_ok {
+                badup += 1;
             }
             if it.complete {
                 if it.snap[5] == u64::MAX {
@@ -636,7 +651,7 @@ mod imp {
                 }
             }
         }
-        println!("X\t{}\t{}\t{}\t{}\t{}\t{}", case, class, n, offgrid, stale, unresolved);
+        println!("X\t{}\t{}\t{}\t{}\t{}\t{}\t{}\t{}", case, class, n, offgrid, stale, unresolved, badframe, badup);
         for (k, it) in ins.iter().enumerate() {
             if !(k < nfirst || k + 2 >= n) || !it.complete {
                 continue;
@@ -962,6 +977,43 @@ mod imp {
                 let load_leaf = if leaf_is_closure { ins(35, 2, 0, 0) } else { ins_imm(2, 2, 0) };
                 set_code(&mut main, vec![load_leaf, ins(35, 5, 1, 1), ins(21, 6, 5, 0), ins(22, 6, 0, 0)]);
                 run_case(&format!("u{}c{}", op, leaf_is_closure as u8), &mut vm, &main, gap, budget, nfirst, &format!("sweep:upvalcall{}", op));
+            }
+            // CallUpval / TailCallUpval into a DIFFERENT function with a larger constant pool that then calls, returns and
+            // loads a high constant (the frame record the return reloads must be the tail-called function's)
+            for op in [80u32, 81] {
+                for tramp_consts in [0usize, 1, 3] {
+                    for worker_closure in [false, true] {
+                        let mut vm = new_vm();
+                        let mut noop = Function::new(Some("noop".into()), 0);
+                        noop.num_registers = 1;
+                        set_code(&mut noop, vec![ins(23, 0, 0, 0)]);
+                        let mut worker = Function::new(Some("worker".into()), 0);
+                        worker.num_registers = 3;
+                        worker.constants.push(Value::nested_fn_marker(0));
+                        for k in 0..7 {
+                            worker.constants.push(Value::int(770 + k));
+                        }
+                        worker.nested_functions.push(noop);
+                        set_code(&mut worker, vec![ins_imm(2, 0, 0), ins(21, 1, 0, 0), ins_imm(2, 2, 7), ins_imm(2, 1, 3), ins(22, 2, 0, 0)]);
+                        let mut tramp = Function::new(Some("trampoline".into()), 0);
+                        tramp.num_registers = 2;
+                        for k in 0..tramp_consts {
+                            tramp.constants.push(Value::int(5 + k as i64));
+                        }
+                        tramp.upvalue_descriptors.push(UpvalueDescriptor { is_local: true, index: 0 });
+                        set_code(&mut tramp, vec![ins(op, 0, 0, 0), ins(22, 0, 0, 0)]);
+                        let mut main = Function::new(Some("main".into()), 0);
+                        main.num_registers = 6;
+                        main.constants.push(Value::nested_fn_marker(0));
+                        main.constants.push(Value::nested_fn_marker(1));
+                        main.nested_functions.push(worker);
+                        main.nested_functions.push(tramp);
+                        let load_worker = if worker_closure { ins(35, 0, 0, 0) } else { ins_imm(2, 0, 0) };
+                        set_code(&mut main, vec![load_worker, ins(35, 3, 1, 1), ins(21, 4, 3, 0), ins(22, 4, 0, 0)]);
+                        run_case(&format!("t{}c{}w{}", op, tramp_consts, worker_closure as u8), &mut vm, &main, gap, budget, nfirst,
+                                 &format!("sweep:upvalcall{}-then-call:tramp{}:{}", op, tramp_consts, if worker_closure { "closure" } else { "function" }));
+                    }
+                }
             }
             // rebinding the callee of one call site through a non-object value, with garbage and slot reuse in between
             for unbind in 0..4u32 {
